@@ -1,47 +1,74 @@
 /* VERIF-UNIT
 {
  "name": "jw_add_revoke_to_trans_1k",
- "props": ["C14", "C03"],
+ "props": [
+  "C14",
+  "C03"
+ ],
  "level": "U/iter",
  "tier": "quick",
  "tier_after_hooks": "quick",
  "harness": "h_add_revoke",
  "loop_contracts": true,
- "includes": ["debugfs", "lib/ss", "e2fsck"],
- "defines": ["DEBUGFS", "JW_BS=1024"],
+ "includes": [
+  "debugfs",
+  "lib/ss",
+  "e2fsck"
+ ],
+ "defines": [
+  "DEBUGFS",
+  "JW_BS=1024"
+ ],
  "unwind": 6,
  "unwind_reason": "the per-record loop of journal_add_revoke_to_trans is cut by its in-place loop contract (named anchor VERIF_INV_JOURNAL_ADD_REVOKE_TO_TRANS, hooks-pending/jw.diff); the bound serves the DFCC library loops only (unwinding assertions on)",
- "functions": ["debugfs/do_journal.c:journal_add_revoke_to_trans"],
+ "functions": [
+  "debugfs/do_journal.c:journal_add_revoke_to_trans"
+ ],
  "assumes": [
-   "NEEDS the hook in hooks-pending/jw.diff (named loop anchors in debugfs/do_journal.c)",
-   "no contract enforced on journal_add_revoke_to_trans: the statement is carried by ghost monitors in the callee stubs (jw_stubs.h) and by harness CHECKs",
-   "callees are stubs: getblk (succeeds; the ENOMEM return is not exercised), ll_rw_block (device write = monitored event, may fail), brelse (a buffer still dirty at its release is reported unless a write failed before), mark_buffer_dirty, jbd2_journal_bmap (physical = logical + constant, may fail), ext2fs_blocks_count (constant; it is called exactly once per list entry, before the entry is stored, and serves as the monitor's record counter), jbd2_revoke_csum_set (stores an ARBITRARY value in the checksum tail when checksums are on and records the block at that moment; the real one: unit jw_descr_block_csum_set)",
-   "U/iter: proved for the first iteration from the real initial state and for one iteration from an arbitrary state satisfying the proved invariant (fill offset = 16 + records * record size, header intact, records already in the block = the list entries in order, nothing pending); the epilogue (last revoke block) from an arbitrary such state",
-   "pointwise: ONE arbitrary record number g_rr of the block being filled and ONE arbitrary byte offset g_kd of the block stand for all",
-   "j_blocksize 1024 (this unit) / 4096 (unit _4k); j_format_version 1 or 2; journal superblock arbitrary (32/64-bit records, with and without checksum tail); revoke list of up to JW_MAXLEN = 2^20 arbitrary entries",
-   "a journal without the 64BIT feature belongs to a filesystem of fewer than 2^32 blocks (do_journal_open: update_64bit_flag sets the feature whenever the filesystem has 64bit and the journal is clean; the kernel sets it at mount)",
-   "buffer heads are allocated as getblk does plus 32 slack bytes that are never accessed; little-endian host; errcode_t values fit in 31 bits"
-  ],
+  "NEEDS the hook in hooks-pending/jw.diff (named loop anchors in debugfs/do_journal.c)",
+  "no contract enforced on journal_add_revoke_to_trans: the statement is carried by ghost monitors in the callee stubs (jw_stubs.h) and by harness CHECKs",
+  "callees are stubs: getblk (succeeds; the ENOMEM return is not exercised), ll_rw_block (device write = monitored event, may fail), brelse (a buffer still dirty at its release is reported unless a write failed before), mark_buffer_dirty, jbd2_journal_bmap (physical = logical + constant, may fail), ext2fs_blocks_count (constant; it is called exactly once per list entry, before the entry is stored, and serves as the monitor's record counter), jbd2_revoke_csum_set (stores an ARBITRARY value in the checksum tail when checksums are on and records the block at that moment; the real one: unit jw_descr_block_csum_set)",
+  "U/iter: proved for the first iteration from the real initial state and for one iteration from an arbitrary state satisfying the proved invariant (fill offset = 16 + records * record size, header intact, records already in the block = the list entries in order, nothing pending); the epilogue (last revoke block) from an arbitrary such state",
+  "pointwise: ONE arbitrary record number g_rr of the block being filled and ONE arbitrary byte offset g_kd of the block stand for all",
+  "j_blocksize 1024 (this unit) / 4096 (unit _4k); j_format_version 1 or 2; journal superblock arbitrary (32/64-bit records, with and without checksum tail); revoke list of up to JW_MAXLEN = 2^20 arbitrary entries",
+  "a journal without the 64BIT feature belongs to a filesystem of fewer than 2^32 blocks (do_journal_open: update_64bit_flag sets the feature whenever the filesystem has 64bit and the journal is clean; the kernel sets it at mount)",
+  "buffer heads are allocated as getblk does plus 32 slack bytes that are never accessed; little-endian host; errcode_t values fit in 31 bits"
+ ],
  "native": false
 }
 */
 /* VERIF-UNIT
 {
  "name": "jw_add_revoke_to_trans_4k",
- "props": ["C14", "C03"],
+ "props": [
+  "C14",
+  "C03"
+ ],
  "level": "U/iter",
  "tier": "thorough",
  "tier_after_hooks": "thorough",
  "timeout": 900,
  "harness": "h_add_revoke",
  "loop_contracts": true,
- "includes": ["debugfs", "lib/ss", "e2fsck"],
- "defines": ["DEBUGFS", "JW_BS=4096"],
+ "includes": [
+  "debugfs",
+  "lib/ss",
+  "e2fsck"
+ ],
+ "defines": [
+  "DEBUGFS",
+  "JW_BS=4096"
+ ],
  "unwind": 6,
  "unwind_reason": "as jw_add_revoke_to_trans_1k",
- "functions": ["debugfs/do_journal.c:journal_add_revoke_to_trans"],
- "assumes": ["as jw_add_revoke_to_trans_1k, with j_blocksize 4096"],
- "native": false
+ "functions": [
+  "debugfs/do_journal.c:journal_add_revoke_to_trans"
+ ],
+ "assumes": [
+  "as jw_add_revoke_to_trans_1k, with j_blocksize 4096"
+ ],
+ "native": false,
+ "no_cross_check": true
 }
 */
 /*
